@@ -78,7 +78,18 @@ func VerifCheck_clock() {
 				verifPreempt(pre) // the clock goroutine may run between any two synchronisation operations of makeDeadline
 				dl := makeDeadline(d)
 				verifPreempt(0)
-				wait := time.Duration(verifIntSet("wait"+strconv.Itoa(i), verifParam("waitdom")))
+				wd := verifParam("waitdom")
+				if w0 := verifParam("waitdom_first"); w0 != "" && i != verifParamInt("last_timed") {
+					wd = w0
+				}
+				wv := verifIntSet("wait"+strconv.Itoa(i), wd)
+				if verifParam("waitconcrete") != "" {
+					// the polling instant is case-split over a list of instants (every tick boundary, one
+					// nanosecond after it, the middle of the interval, one nanosecond before the next): the
+					// published time only changes at ticks, so later instants of the history stay concrete
+					wv = verifConcrete(wv)
+				}
+				wait := time.Duration(wv)
 				time.Sleep(wait)
 				r := dl.reached()
 				t1 := verifNow()
@@ -113,6 +124,9 @@ func VerifCheck_clock() {
 				time.Sleep(d / 2)
 			case "idle-long":
 				time.Sleep(d + time.Second + 3*period)
+			case "idle-verylong":
+				// long enough for the clock goroutine to have exited AND for more than its slop to pass after that
+				time.Sleep(2*d + 3*time.Second + 8*period)
 			case "stop":
 				StopTimeoutClock()
 				fast.mu.Lock()
